@@ -744,7 +744,7 @@ Proof.
   rewrite Forall_forall in IH.
   destruct (o_hidden c) eqn:Ehc.
   - destruct c as [n' t' h' cs']. cbn [o_hidden] in Ehc. subst h'. cbn [entries_obj negb andb] in He. contradiction.
-  - apply (IH c Hc _ e); [|exact He].
+  - apply (IH c Hc (Some (full_name pf n)) e); [|exact He].
     change (Some (full_name pf n)) with (Some (full_name pf (o_name (Obj n t false cs)))).
     apply listed_member; [exact Hl|exact Hc|exact Ehc].
 Qed.
@@ -874,7 +874,8 @@ Lemma body_no_break e : no_break (e_name e) -> Forall url_char (e_url e) -> no_b
 Proof.
   intros Hn Hu. unfold body_of, line_body. destruct (py_type_facts (e_tag e)) as (Ht & _ & _).
   apply url_chars_no_break in Hu.
-  repeat (apply Forall_app; split); try assumption; apply no_break_by_compute; reflexivity.
+  set (typ := py_prefix ++ domain_name (e_tag e)) in *. unfold no_break in *.
+  rewrite !Forall_app. repeat split; try assumption; apply no_break_by_compute; reflexivity.
 Qed.
 
 Lemma body_parses e :
